@@ -48,9 +48,15 @@ pub enum Src {
     PBTreeMapRef,
     PHashMap,
     PHashMapRef,
+    /// concurrent iterators of which the first 1-2 elements were taken before `into_par()`
+    PConVecPre,
+    PConSlicePre,
+    PConRangePre,
+    PConIterPre,
+    PConIterParPre,
 }
 
-pub const ALL_SRC: [(Src, &str); 33] = [
+pub const ALL_SRC: [(Src, &str); 38] = [
     (Src::SVec, "svec"),
     (Src::SSlice, "sslice"),
     (Src::SIter, "siter"),
@@ -84,6 +90,11 @@ pub const ALL_SRC: [(Src, &str); 33] = [
     (Src::PBTreeMapRef, "pbtreemapref"),
     (Src::PHashMap, "phashmap"),
     (Src::PHashMapRef, "phashmapref"),
+    (Src::PConVecPre, "pconvecpre"),
+    (Src::PConSlicePre, "pconslicepre"),
+    (Src::PConRangePre, "pconrangepre"),
+    (Src::PConIterPre, "pconiterpre"),
+    (Src::PConIterParPre, "pconiterparpre"),
 ];
 
 #[derive(Clone, Copy, Debug, PartialEq, Eq)]
@@ -118,8 +129,8 @@ impl Src {
     pub fn item_kind(self) -> ItemKind {
         match self {
             Src::SVec | Src::SIter | Src::PVec | Src::PIter | Src::PDeque | Src::PList | Src::PBTree | Src::PHeap | Src::PHash => ItemKind::Owned,
-            Src::PClonedAd | Src::PClonedIt | Src::PConVec | Src::PConIter | Src::PConIterPar | Src::PBTreeMap | Src::PHashMap => ItemKind::Owned,
-            Src::SRange | Src::PRange | Src::PCopiedAd | Src::PConRange => ItemKind::Usize,
+            Src::PClonedAd | Src::PClonedIt | Src::PConVec | Src::PConVecPre | Src::PConIterPre | Src::PConIterParPre | Src::PConIter | Src::PConIterPar | Src::PBTreeMap | Src::PHashMap => ItemKind::Owned,
+            Src::SRange | Src::PRange | Src::PCopiedAd | Src::PConRange | Src::PConRangePre => ItemKind::Usize,
             _ => ItemKind::Ref,
         }
     }
@@ -130,7 +141,7 @@ impl Src {
     /// the source's length is known up front (given `known` for iterator sources)
     pub fn known_len(self, known: bool) -> bool {
         match self {
-            Src::SIter | Src::PIter | Src::PConIter | Src::PConIterPar => known,
+            Src::SIter | Src::PIter | Src::PConIter | Src::PConIterPar | Src::PConIterPre | Src::PConIterParPre => known,
             Src::PHash | Src::PHashRef | Src::PBTree | Src::PBTreeRef | Src::PList | Src::PListRef | Src::PDeque | Src::PDequeRef | Src::PHeap | Src::PHeapRef => true,
             _ => true,
         }
@@ -174,6 +185,8 @@ pub struct Case {
     pub fault_payload: u8,
     /// no call logging (inputs of millions of elements)
     pub quiet: bool,
+    /// how flat_map expansions are produced (closures::EXP_MODE): 0 container, 1 lazy, 2 lazy and endless
+    pub exp_mode: u8,
 }
 
 impl Case {
@@ -202,6 +215,7 @@ impl Case {
             cp_limit: 0,
             fault_payload: 0,
             quiet: false,
+            exp_mode: 0,
         }
     }
 
@@ -242,7 +256,7 @@ impl Case {
         };
         let j = |v: Vec<String>| v.join(",");
         format!(
-            "src={};in={};k={};e={};ch={};t={};rk={};pre={};sp={};nt={};cs={};cf={};fm={};ex={};pm={:x};fault={};cp={};spt={};pp={},{};cpl={};fp={};q={}",
+            "src={};in={};k={};e={};ch={};t={};rk={};pre={};sp={};nt={};cs={};cf={};fm={};ex={};pm={:x};fault={};cp={};spt={};pp={},{};cpl={};fp={};q={};xm={}",
             self.src.name(),
             if inp.is_empty() { "-".to_string() } else { inp },
             self.known as u8,
@@ -268,7 +282,8 @@ impl Case {
             self.pred_pos[1] as i64 - if self.pred_pos[1] == u32::MAX { u32::MAX as i64 + 1 } else { 0 },
             self.cp_limit,
             self.fault_payload,
-            self.quiet as u8
+            self.quiet as u8,
+            self.exp_mode
         )
     }
 
@@ -341,6 +356,7 @@ impl Case {
                 "cpl" => c.cp_limit = v.parse().unwrap(),
                 "fp" => c.fault_payload = v.parse().unwrap(),
                 "q" => c.quiet = v == "1",
+                "xm" => c.exp_mode = v.parse().unwrap(),
                 _ => panic!("MACHINERY: unknown case field {}", k),
             }
         }
@@ -368,6 +384,9 @@ pub struct Obs {
     pub spawns: u32,
     /// the source sequence as the source really yields it sequentially: (id, slot)
     pub eff_input: Vec<(u64, u8)>,
+    /// children handed out by flat_map expansions / an expansion was advanced beyond closures::RUNAWAY_LIMIT
+    pub exp_produced: u64,
+    pub exp_runaway: bool,
 }
 
 pub fn elems_of(input: &[u8]) -> Vec<(u64, u8)> {
@@ -394,6 +413,7 @@ pub fn install_params(case: &Case) {
     cl::CLOSURE_POINTS.store(case.cpoints, SeqCst);
     cl::CLOSURE_POINTS_LIMIT.store(case.cp_limit as u32, SeqCst);
     cl::QUIET.store(case.quiet, SeqCst);
+    cl::EXP_MODE.store(case.exp_mode as u32, SeqCst);
     cl::FAULT_PAYLOAD.store(case.fault_payload as u32, SeqCst);
     for i in 0..2 {
         let id = if case.pred_pos[i] == u32::MAX { u64::MAX } else { case.id_at_pred(case.pred_pos[i]) };
@@ -443,5 +463,7 @@ pub fn run_case(case: &Case, cfg: &Config, prefix: &[u8], body: BodyFn) -> Obs {
         max_inside: source::MAX_INSIDE.load(SeqCst),
         spawns: glue::take_spawn_count(),
         eff_input: eff,
+        exp_produced: cl::EXP_PRODUCED.load(SeqCst),
+        exp_runaway: cl::EXP_RUNAWAY.load(SeqCst),
     }
 }
